@@ -34,8 +34,6 @@ Proof. unfold is_2xx. rewrite andb_true_iff, !Z.leb_le. tauto. Qed.
 
 (* ------------------------------------------------------------------ apiClientImpl.Do against the table *)
 
-(* a 204 answer has no body (RFC 9110 15.3.5; net/http enforces it on both sides) *)
-Definition wf_answer (code : Z) (parsed : option envelope) : Prop := code = 204 -> parsed = None.
 
 Lemma error_type_and_msg_type code :
   fst (error_type_and_msg code) =
@@ -165,14 +163,6 @@ Qed.
 
 (* ------------------------------------------------------------------ DoGetFallback *)
 
-Definition start_net (script : list behaviour) (pre : bool) : net := {| n_script := script; n_done := pre; n_seen := [] |}.
-
-Definition answer_of (b : option behaviour) : outcome :=
-  match b with
-  | Some (SResp c p) => OResp c p
-  | Some (SCancelBody c) => OErr (Some c)
-  | _ => OErr None
-  end.
 
 Lemma d_resp_answered c p : d_resp (api_do (OResp c p)) = Some c.
 Proof.
@@ -354,8 +344,6 @@ Proof.
   rewrite <- app_assoc. reflexivity.
 Qed.
 
-Definition label_ok (c : api_call) : Prop :=
-  match c with CLabelValues label _ _ _ _ => ~ In slash label | _ => True end.
 
 Lemma url_label label :
   client_url [] ep_label_values [(s_name, label)] = lit "/api/v1/label/" ++ label ++ lit "/values".
@@ -385,10 +373,6 @@ Qed.
 
 (* ------------------------------------------------------------------ a whole call against any script *)
 
-Definition wf_script (script : list behaviour) : Prop := forall c p, In (SResp c p) script -> wf_answer c p.
-
-Definition parsed_data_ok (parsed : option envelope) : bool :=
-  match parsed with Some e => env_data_ok e | None => false end.
 
 Lemma data_ok_on_success code parsed : wf_answer code parsed ->
   d_err (api_do (OResp code parsed)) = None -> d_data_ok (api_do (OResp code parsed)) = parsed_data_ok parsed.
